@@ -102,11 +102,11 @@ class TreeCache:
         with open(tmp, "wb") as f:
             pickle.dump(self.data, f, protocol=pickle.HIGHEST_PROTOCOL)
         os.replace(tmp, self.path)
-        # stale caches of other grammars are dropped (disk is limited); the three newest are kept so that
+        # stale caches of other grammars are dropped (disk is limited); the ten newest are kept so that
         # a run against a scratch tree with another grammar does not evict the cache of the main tree
         files = [fn for fn in os.listdir(CACHE_DIR) if fn.startswith("trees-") and ".tmp" not in fn]
         files.sort(key=lambda fn: os.path.getmtime(os.path.join(CACHE_DIR, fn)), reverse=True)
-        for fn in files[3:]:
+        for fn in files[10:]:
             if fn != os.path.basename(self.path):
                 try:
                     os.unlink(os.path.join(CACHE_DIR, fn))
